@@ -502,21 +502,21 @@ class Syntax(JupyterMixin):
             yield from console.render(text, options=options.update(width=code_width))
             return
 
-        lines = text.split("\n")
+        lines = text.split("\n", allow_blank=bool(self.line_range))
         if self.line_range:
             lines = lines[line_offset:end_line]
 
-        if self.indent_guides and not options.ascii_only:
+        if lines and self.indent_guides and not options.ascii_only:
             style = (
                 self._get_base_style()
                 + self._theme.get_style_for_token(Comment)
                 + Style(dim=True)
             )
+            # with_indent_guides drops one trailing newline: add one, and keep blank lines when splitting
             lines = (
-                Text("\n")
-                .join(lines)
+                (Text("\n").join(lines) + "\n")
                 .with_indent_guides(self.tab_size, style=style)
-                .split("\n")
+                .split("\n", allow_blank=True)
             )
 
         numbers_column_width = self._numbers_column_width
